@@ -371,14 +371,14 @@ func (s *Stack[T]) Pop() (T, bool) {
 }
 func (s Stack[T]) Len() int { return len(s.items) }
 
-type Pair[K comparable, V any] struct {
+type Pair[K, V comparable] struct {
 	k K
 	v V
 }
 
 func (p Pair[K, V]) Swap() Pair[V, K] { return Pair[V, K]{p.v, p.k} }
 
-func Find[K comparable, V any](ps []Pair[K, V], k K) (V, bool) {
+func Find[K, V comparable](ps []Pair[K, V], k K) (V, bool) {
 	for _, p := range ps {
 		if p.k == k {
 			return p.v, true
@@ -563,8 +563,9 @@ func Main() string {
 	i = zt
 	out += try(func() { i.Twice() }) + " "
 	var pb *Base
-	var tw interface{ Twice() int } = pb
-	out += try(func() { tw.Twice() })
+	for _, tw := range []interface{ Twice() int }{pb, Base{2}} {
+		out += try(func() { out += itoa(tw.Twice()) }) + ","
+	}
 	return out
 }
 `},
